@@ -241,3 +241,76 @@ Lemma inst_tors_8 : forall i, @smul ed25519_ops 8 (tors i) = pzero.
 Proof.
   intros i. cbn [smul pzero tors ed25519_ops]. unfold Ed25519.torsion. apply pt_eqb_strict_ok. exact (tors8_ok_mod8 i).
 Qed.
+
+(* ---- decompress_valid, the part that needs no inverse: everything in `valid` except the curve equation ----------- *)
+(* whatever `decompress` returns is a normalised representative (Z = 1, T = XY) with reduced coordinates; that (X, Y)
+   satisfies the curve equation needs v * finv v = 1 and the square-root test, i.e. primality: NOT proved. *)
+Lemma inst_decompress_some_shape : forall b (P : @point ed25519_ops), decompress b = Some P ->
+  0 <= Ed25519.pX P < Ed25519.fp /\ 0 <= Ed25519.pY P < Ed25519.fp /\ Ed25519.pZ P = 1 /\
+  Ed25519.pT P = Ed25519.fmul (Ed25519.pX P) (Ed25519.pY P).
+Proof.
+  intros b P. cbn [decompress ed25519_ops]. unfold Ed25519.decompress.
+  destruct (negb (Nat.eqb (length b) 32)); [discriminate|]. cbv zeta.
+  set (y := (Ed25519.le2z b mod 2 ^ 255) mod Ed25519.fp).
+  set (x2 := Ed25519.fmul _ (Ed25519.finv _)).
+  set (r0 := Ed25519.fpow x2 _).
+  set (r1 := if Ed25519.fmul r0 r0 =? x2 then r0 else Ed25519.fmul r0 Ed25519.sqrt_m1).
+  set (r2 := if r1 mod 2 =? 0 then r1 else Ed25519.fneg r1).
+  set (x := if Ed25519.le2z b / 2 ^ 255 =? 1 then Ed25519.fneg r2 else r2).
+  assert (Hy : 0 <= y < Ed25519.fp) by (apply Z.mod_pos_bound; apply fp_pos).
+  assert (Hr0 : 0 <= r0 < Ed25519.fp) by apply fpow_range.
+  assert (Hr1 : 0 <= r1 < Ed25519.fp).
+  { unfold r1. destruct (Ed25519.fmul r0 r0 =? x2); [exact Hr0|apply fmul_range]. }
+  assert (Hr2 : 0 <= r2 < Ed25519.fp).
+  { unfold r2. destruct (r1 mod 2 =? 0); [exact Hr1|apply fneg_range]. }
+  assert (Hx : 0 <= x < Ed25519.fp).
+  { unfold x. destruct (le2z b / 2 ^ 255 =? 1); [apply fneg_range|exact Hr2]. }
+  clearbody x y. destruct (negb _); [discriminate|]. intros H. injection H as <-.
+  cbn [Ed25519.pX Ed25519.pY Ed25519.pZ Ed25519.pT]. split; [exact Hx|]. split; [exact Hy|]. split; reflexivity.
+Qed.
+
+(* ---- summary: EdLaws for the executable instance follows from the NINE fields that are not proved here ------------ *)
+(* (for decompress_valid only its curve-equation part is left as a hypothesis) *)
+Definition inst_on_curve (p : Ed25519.pt) : Prop :=
+  let x := Ed25519.pX p in let y := Ed25519.pY p in
+  Ed25519.fsub (Ed25519.fmul y y) (Ed25519.fmul x x) =
+  Ed25519.fadd 1 (Ed25519.fmul Ed25519.ed_d (Ed25519.fmul (Ed25519.fmul x x) (Ed25519.fmul y y))).
+
+Lemma inst_laws_from_remaining :
+  (forall P Q : @point ed25519_ops, valid P -> valid Q -> valid (padd P Q)) ->
+  (forall k (P : @point ed25519_ops), valid P -> valid (smul k P)) ->
+  (forall P Q R : @point ed25519_ops, valid P -> valid Q -> valid R -> padd P (padd Q R) = padd (padd P Q) R) ->
+  (forall P : @point ed25519_ops, valid P -> padd P (pneg P) = pzero) ->
+  (forall a b (P : @point ed25519_ops), valid P -> smul (a + b) P = padd (smul a P) (smul b P)) ->
+  (forall a b (P : @point ed25519_ops), valid P -> smul (a * b) P = smul a (smul b P)) ->
+  (forall a b, @smul ed25519_ops a G = smul b G -> a mod ell = b mod ell) ->
+  (forall P : @point ed25519_ops, valid P -> decompress (compress P) = Some P) ->
+  (forall b (P : @point ed25519_ops), decompress b = Some P -> inst_on_curve P) ->
+  EdLaws ed25519_ops.
+Proof.
+  intros Hadd Hsmul Hassoc Hneg Hsadd Hsmulmul Hord Hdc Hcurve. constructor.
+  - exact inst_valid_zero.
+  - exact inst_valid_G.
+  - exact Hadd.
+  - exact inst_valid_neg.
+  - exact Hsmul.
+  - exact Hassoc.
+  - intros P Q _ _. apply inst_padd_comm.
+  - exact inst_padd_zero_r.
+  - exact Hneg.
+  - exact inst_smul_0.
+  - exact inst_smul_1.
+  - exact Hsadd.
+  - exact Hsmulmul.
+  - exact inst_smul_opp.
+  - exact inst_smul_ell_G.
+  - exact Hord.
+  - intros P _. apply inst_compress_len.
+  - exact Hdc.
+  - intros b P H. destruct (inst_decompress_some_shape b P H) as (Hx & Hy & Hz & Ht).
+    pose proof (Hcurve b P H) as Hc. cbn [valid ed25519_ops]. unfold inst_valid. cbv zeta.
+    split; [exact Hx|]. split; [exact Hy|]. split; [exact Hz|]. split; [exact Ht|exact Hc].
+  - exact inst_peqb_eq.
+  - exact inst_tors_valid.
+  - exact inst_tors_8.
+Qed.
